@@ -19,6 +19,7 @@ package main
 // and count+1, no reconnect on a recoverable error, connectedFunc counts are 1,2,3,…
 
 import (
+	"context"
 	"crypto/ecdsa"
 	"crypto/elliptic"
 	"crypto/rand"
@@ -33,6 +34,7 @@ import (
 	"io"
 	"math/big"
 	"net"
+	"path/filepath"
 	"reflect"
 	"runtime"
 	"sort"
@@ -90,6 +92,7 @@ func reconnectShapeFacts() map[string]any {
 		return out
 	}
 	file, _ := fn.FileLine(fn.Entry())
+	connectShapeFacts(out, filepath.Join(filepath.Dir(file), "client.go"))
 	fset := token.NewFileSet()
 	f, err := parser.ParseFile(fset, file, nil, 0)
 	if err != nil {
@@ -244,6 +247,267 @@ func reconnectShapeFacts() map[string]any {
 	return out
 }
 
+// connectShapeFacts parses core/client/client.go and reports, for (*clientImpl).connect, every
+// `return` in source order with the kind of error it returns and the Close calls that precede it
+// ON ITS PATH (path-sensitive over if/else with terminating bodies; closures are not entered):
+//
+//	kind: 1 = `err` (the factory's error)  2 = ConnectError{…}  3 = AuthError{…}  4 = nil  9 = other
+//	mask: 1 conn.CloseWithError unconditionally, 8 the same under `if conn != nil`, 2 tr.Close,
+//	      4 pktConn.Close, +100 for every resource closed twice, +1000 for a Close under any other condition
+//
+// plus what the success path stores in the client (c.conn 1, c.tr 2, c.pktConn 4), what
+// (*clientImpl).Close closes and in which order, and that NewClient returns no client on error.
+func connectShapeFacts(out map[string]any, file string) {
+	for _, k := range []string{"c16_connect_returns", "c16_connect_success_assigns", "c16_clientClose_mask",
+		"c16_clientClose_order", "c16_newclient_err_returns_nil"} {
+		out[k] = 0
+	}
+	for i := 0; i < 4; i++ {
+		out[fmt.Sprintf("c16_connect_ret%d_kind", i)] = 0
+		out[fmt.Sprintf("c16_connect_ret%d_mask", i)] = 9999
+	}
+	fset := token.NewFileSet()
+	f, err := parser.ParseFile(fset, file, nil, 0)
+	if err != nil {
+		return
+	}
+	type st struct{ connU, connG, tr, pkt, odd, assigns int }
+	mask := func(x st) int {
+		m := 0
+		if x.connU > 0 {
+			m |= 1
+		}
+		if x.connG > 0 {
+			m |= 8
+		}
+		if x.tr > 0 {
+			m |= 2
+		}
+		if x.pkt > 0 {
+			m |= 4
+		}
+		for _, n := range []int{x.connU + x.connG, x.tr, x.pkt} {
+			if n > 1 {
+				m += 100
+			}
+		}
+		return m + 1000*x.odd
+	}
+	// closeTarget: which resource a call closes ("" if none); names as in connect() / Close()
+	closeTarget := func(c *ast.CallExpr) string {
+		sel, ok := c.Fun.(*ast.SelectorExpr)
+		if !ok || (sel.Sel.Name != "Close" && sel.Sel.Name != "CloseWithError") {
+			return ""
+		}
+		name := ""
+		switch x := sel.X.(type) {
+		case *ast.Ident:
+			name = x.Name
+		case *ast.SelectorExpr:
+			name = x.Sel.Name // c.conn / c.tr / c.pktConn
+		}
+		switch name {
+		case "conn", "tr", "pktConn":
+			return name
+		}
+		return ""
+	}
+	// closes in a statement, not entering closures or nested blocks' control flow
+	closesIn := func(n ast.Node) []string {
+		var out []string
+		ast.Inspect(n, func(x ast.Node) bool {
+			switch y := x.(type) {
+			case *ast.FuncLit:
+				return false
+			case *ast.CallExpr:
+				if t := closeTarget(y); t != "" {
+					out = append(out, t)
+				}
+			}
+			return true
+		})
+		return out
+	}
+	terminates := func(b *ast.BlockStmt) bool {
+		if b == nil || len(b.List) == 0 {
+			return false
+		}
+		_, ok := b.List[len(b.List)-1].(*ast.ReturnStmt)
+		return ok
+	}
+	isConnNotNil := func(e ast.Expr) bool {
+		be, ok := e.(*ast.BinaryExpr)
+		if !ok || be.Op != token.NEQ {
+			return false
+		}
+		x, ok1 := be.X.(*ast.Ident)
+		y, ok2 := be.Y.(*ast.Ident)
+		return ok1 && ok2 && x.Name == "conn" && y.Name == "nil"
+	}
+	type ret struct{ kind, mask, assigns int }
+	var rets []ret
+	var walk func(list []ast.Stmt, cur st) st
+	add := func(cur st, targets []string, guardedConn, odd bool) st {
+		for _, t := range targets {
+			switch {
+			case odd && !(guardedConn && t == "conn"):
+				cur.odd++
+			case t == "conn" && guardedConn:
+				cur.connG++
+			case t == "conn":
+				cur.connU++
+			case t == "tr":
+				cur.tr++
+			case t == "pktConn":
+				cur.pkt++
+			}
+		}
+		return cur
+	}
+	walk = func(list []ast.Stmt, cur st) st {
+		for _, s := range list {
+			switch x := s.(type) {
+			case *ast.ReturnStmt:
+				k := 9
+				if len(x.Results) > 0 {
+					switch e := x.Results[len(x.Results)-1].(type) {
+					case *ast.Ident:
+						if e.Name == "err" {
+							k = 1
+						} else if e.Name == "nil" {
+							k = 4
+						}
+					case *ast.CompositeLit:
+						if se, ok := e.Type.(*ast.SelectorExpr); ok {
+							switch se.Sel.Name {
+							case "ConnectError":
+								k = 2
+							case "AuthError":
+								k = 3
+							}
+						}
+					}
+				}
+				rets = append(rets, ret{k, mask(cur), cur.assigns})
+			case *ast.IfStmt:
+				if terminates(x.Body) {
+					walk(x.Body.List, cur) // a path of its own
+				} else {
+					// falls through: its closes are conditional
+					inner := walk(x.Body.List, st{})
+					g := isConnNotNil(x.Cond)
+					cur.connG += inner.connU * b2i(g)
+					cur.odd += inner.connU*b2i(!g) + inner.tr + inner.pkt + inner.connG + inner.odd
+				}
+				switch e := x.Else.(type) {
+				case *ast.BlockStmt:
+					if terminates(e) {
+						walk(e.List, cur)
+					} else {
+						inner := walk(e.List, st{})
+						cur.odd += inner.connU + inner.tr + inner.pkt + inner.connG + inner.odd
+					}
+				case *ast.IfStmt:
+					walk([]ast.Stmt{e}, cur)
+				}
+			case *ast.BlockStmt:
+				cur = walk(x.List, cur)
+			case *ast.ForStmt, *ast.RangeStmt, *ast.SwitchStmt, *ast.TypeSwitchStmt, *ast.SelectStmt, *ast.DeferStmt, *ast.GoStmt:
+				cur = add(cur, closesIn(s), false, true) // a Close under control flow the model does not have
+			case *ast.AssignStmt:
+				for _, l := range x.Lhs {
+					if se, ok := l.(*ast.SelectorExpr); ok {
+						if id, ok := se.X.(*ast.Ident); ok && id.Name == "c" {
+							switch se.Sel.Name {
+							case "conn":
+								cur.assigns |= 1
+							case "tr":
+								cur.assigns |= 2
+							case "pktConn":
+								cur.assigns |= 4
+							}
+						}
+					}
+				}
+				cur = add(cur, closesIn(s), false, false)
+			default:
+				cur = add(cur, closesIn(s), false, false)
+			}
+		}
+		return cur
+	}
+	for _, d := range f.Decls {
+		fd, ok := d.(*ast.FuncDecl)
+		if !ok || fd.Body == nil {
+			continue
+		}
+		switch {
+		case fd.Recv != nil && fd.Name.Name == "connect":
+			rets = nil
+			walk(fd.Body.List, st{})
+			out["c16_connect_returns"] = len(rets)
+			for i, r := range rets {
+				if i < 4 {
+					out[fmt.Sprintf("c16_connect_ret%d_kind", i)] = r.kind
+					out[fmt.Sprintf("c16_connect_ret%d_mask", i)] = r.mask
+				}
+				if r.kind == 4 {
+					out["c16_connect_success_assigns"] = r.assigns
+				}
+			}
+		case fd.Recv != nil && fd.Name.Name == "Close" && len(fd.Recv.List) == 1:
+			if se, ok := fd.Recv.List[0].Type.(*ast.StarExpr); ok {
+				if id, ok := se.X.(*ast.Ident); ok && id.Name == "clientImpl" {
+					m, order := 0, 0
+					for _, t := range closesIn(fd.Body) {
+						switch t {
+						case "conn":
+							m |= 1
+							order = order*10 + 1
+						case "tr":
+							m |= 2
+							order = order*10 + 2
+						case "pktConn":
+							m |= 4
+							order = order*10 + 3
+						}
+					}
+					out["c16_clientClose_mask"] = m
+					out["c16_clientClose_order"] = order
+				}
+			}
+		case fd.Recv == nil && fd.Name.Name == "NewClient":
+			okAll, seen := true, false
+			ast.Inspect(fd.Body, func(n ast.Node) bool {
+				r, ok := n.(*ast.ReturnStmt)
+				if !ok || len(r.Results) == 0 {
+					return true
+				}
+				last, isId := r.Results[len(r.Results)-1].(*ast.Ident)
+				if isId && last.Name == "nil" {
+					return true // the success return
+				}
+				seen = true
+				first, ok := r.Results[0].(*ast.Ident)
+				if !ok || first.Name != "nil" {
+					okAll = false
+				}
+				return true
+			})
+			if okAll && seen {
+				out["c16_newclient_err_returns_nil"] = 1
+			}
+		}
+	}
+}
+
+func b2i(b bool) int {
+	if b {
+		return 1
+	}
+	return 0
+}
+
 // ------------------------------------------------------------------ environment: a real server
 
 var (
@@ -256,8 +520,29 @@ type rcEnv struct {
 	addr     *net.UDPAddr
 	deadAddr *net.UDPAddr
 	mu       sync.Mutex
-	conns    map[int]*quic.Conn // client UDP port → server-side connection
+	seq      int64                 // accept counter (orders accepts against socket creation)
+	accepts  map[int][]*rcAccepted // client UDP port → server-side connections, in accept order
 	auths    map[string]bool
+}
+
+// rcAccepted is one connection the server accepted.
+type rcAccepted struct {
+	seq          int64
+	conn         *quic.Conn
+	serverClosed bool // the harness made the SERVER close it (kill, rt stage)
+}
+
+// acceptedFor returns the connection made from a socket bound to port that was created when the
+// accept counter stood at createdSeq (ports can be reused by later sockets).
+func (e *rcEnv) acceptedFor(port int, createdSeq int64) *rcAccepted {
+	e.mu.Lock()
+	defer e.mu.Unlock()
+	for _, a := range e.accepts[port] {
+		if a.seq > createdSeq {
+			return a
+		}
+	}
+	return nil
 }
 
 type rcAuth struct{ e *rcEnv }
@@ -265,7 +550,21 @@ type rcAuth struct{ e *rcEnv }
 func (a rcAuth) Authenticate(addr net.Addr, auth string, tx uint64) (bool, string) {
 	a.e.mu.Lock()
 	a.e.auths[auth] = true
+	var victim *rcAccepted
+	if strings.HasPrefix(auth, "rt") {
+		// RoundTrip-error stage: the server drops the connection instead of answering
+		if ua, ok := addr.(*net.UDPAddr); ok {
+			if l := a.e.accepts[ua.Port]; len(l) > 0 {
+				victim = l[len(l)-1]
+				victim.serverClosed = true
+			}
+		}
+	}
 	a.e.mu.Unlock()
+	if victim != nil {
+		_ = victim.conn.CloseWithError(0x107, "verif rt")
+		return false, auth
+	}
 	return strings.HasPrefix(auth, "good"), auth
 }
 
@@ -321,7 +620,7 @@ func selfSignedCert() tls.Certificate {
 }
 
 func newRcEnv() *rcEnv {
-	e := &rcEnv{conns: map[int]*quic.Conn{}, auths: map[string]bool{}}
+	e := &rcEnv{accepts: map[int][]*rcAccepted{}, auths: map[string]bool{}}
 	uc, err := net.ListenUDP("udp", &net.UDPAddr{IP: net.IPv4(127, 0, 0, 1)})
 	if err != nil {
 		panic(err)
@@ -349,7 +648,8 @@ func newRcEnv() *rcEnv {
 		_ = server.VerifServeWithHook(s, func(c *quic.Conn) {
 			if ua, ok := c.RemoteAddr().(*net.UDPAddr); ok {
 				e.mu.Lock()
-				e.conns[ua.Port] = c
+				e.seq++
+				e.accepts[ua.Port] = append(e.accepts[ua.Port], &rcAccepted{seq: e.seq, conn: c})
 				e.mu.Unlock()
 			}
 		})
@@ -366,13 +666,31 @@ type censusConn struct {
 	port   int
 	closed bool // under h.mu
 	dead   bool // killed by the harness (under h.mu)
+
+	createdSeq int64 // the environment's accept counter when the factory returned this socket
+	closes     int   // Close() calls (under h.mu)
+	trCloses   int   // quic.Transport.Close() calls, seen as SetReadDeadline(non-zero) (under h.mu)
+	client     bool  // a successful connect handed this socket to a client (under h.mu)
 }
 
 func (c *censusConn) Close() error {
 	c.h.mu.Lock()
 	c.closed = true
+	c.closes++
 	c.h.mu.Unlock()
 	return c.UDPConn.Close()
+}
+
+// SetReadDeadline: quic-go calls it on the transport's packet conn only from Transport.Close (with
+// time.Now(), then with the zero time) when the transport did not create the conn itself — which
+// makes tr.Close() observable from outside.
+func (c *censusConn) SetReadDeadline(t time.Time) error {
+	if !t.IsZero() {
+		c.h.mu.Lock()
+		c.trCloses++
+		c.h.mu.Unlock()
+	}
+	return c.UDPConn.SetReadDeadline(t)
 }
 
 type rcHist struct {
@@ -389,7 +707,10 @@ type rcHist struct {
 	openAtNew int                   // max number of OTHER factory sockets open when New was called
 	staleAuth int                   // connected with an auth string that is not the latest evaluation's
 	held      []io.Closer
-	lastErr   string // text of the last error a call returned (diagnostics in oracle messages)
+	lastErr   string        // text of the last error a call returned (diagnostics in oracle messages)
+	broken    atomic.Bool   // a call panicked or hung (rc.m may be held for ever): stop driving this history
+	brokenCh  chan struct{} // closed when broken is set: calls queued behind the dead lock give up at once
+	brokenOne sync.Once
 
 	rc client.Client
 }
@@ -410,6 +731,9 @@ func (f *rcFactory) New(addr net.Addr) (net.PacketConn, error) {
 		return nil, err
 	}
 	h := f.h
+	h.env.mu.Lock()
+	created := h.env.seq
+	h.env.mu.Unlock()
 	h.mu.Lock()
 	open := 0
 	for _, s := range h.socks {
@@ -420,7 +744,7 @@ func (f *rcFactory) New(addr net.Addr) (net.PacketConn, error) {
 	if open > h.openAtNew {
 		h.openAtNew = open
 	}
-	cc := &censusConn{UDPConn: u, h: h, id: len(h.socks), port: u.LocalAddr().(*net.UDPAddr).Port}
+	cc := &censusConn{UDPConn: u, h: h, id: len(h.socks), port: u.LocalAddr().(*net.UDPAddr).Port, createdSeq: created}
 	h.socks = append(h.socks, cc)
 	h.mu.Unlock()
 	return cc, nil
@@ -449,6 +773,8 @@ func (h *rcHist) configFunc() (*client.Config, error) {
 		cfg.ServerAddr = nil
 	case "auth":
 		cfg.Auth = fmt.Sprintf("bad-%d-%d", h.id, n)
+	case "rt":
+		cfg.Auth = fmt.Sprintf("rt-%d-%d", h.id, n)
 	case "tls":
 		cfg.TLSConfig = client.TLSConfig{ServerName: "verif.invalid"}
 	case "down":
@@ -463,6 +789,7 @@ func (h *rcHist) connectedFunc(c client.Client, info *client.HandshakeInfo, n in
 	h.connArgs = append(h.connArgs, n)
 	if len(h.socks) > 0 {
 		h.inner[len(h.socks)-1] = in
+		h.socks[len(h.socks)-1].client = true
 	}
 	want := h.authFor(h.cfgCalls)
 	h.mu.Unlock()
@@ -495,6 +822,77 @@ func (h *rcHist) snapshot() (cfg int, conn []int, open []int, alloc int) {
 	return h.cfgCalls, append([]int(nil), h.connArgs...), open, len(h.socks)
 }
 
+// connState: what became of the QUIC connection made from socket s, as the SERVER saw it:
+// "-" never accepted, "*" the server closed it first (kill / rt stage), "1" the client closed it
+// (remote application error), "0" not closed by the client. If the socket shows signs of teardown
+// the CONNECTION_CLOSE may still be in flight: wait for it (bounded).
+func (h *rcHist) connState(s *censusConn, teardown bool) string {
+	acc := h.env.acceptedFor(s.port, s.createdSeq)
+	if acc == nil {
+		return "-"
+	}
+	h.env.mu.Lock()
+	sc := acc.serverClosed
+	h.env.mu.Unlock()
+	if sc {
+		return "*"
+	}
+	ctx := acc.conn.Context()
+	if ctx.Err() == nil && teardown {
+		select {
+		case <-ctx.Done():
+		case <-time.After(3 * time.Second):
+		}
+	}
+	if ctx.Err() == nil {
+		return "0"
+	}
+	var ae *quic.ApplicationError
+	if errors.As(context.Cause(ctx), &ae) && ae.Remote {
+		return "1"
+	}
+	return "0"
+}
+
+// resources renders every factory socket as id:pNtNcX (see lean/Hy/Drv/Reconnect.lean) and checks
+// the model-free resource clauses: a closed packet conn whose transport was never closed, a
+// connection the client abandoned without closing, a failed attempt not closed exactly once.
+func (h *rcHist) resources(orc *[]string) string {
+	h.mu.Lock()
+	socks := append([]*censusConn(nil), h.socks...)
+	type snap struct {
+		closes, tr int
+		client     bool
+	}
+	snaps := make([]snap, len(socks))
+	for i, s := range socks {
+		snaps[i] = snap{s.closes, s.trCloses, s.client}
+	}
+	h.mu.Unlock()
+	if len(socks) == 0 {
+		return "-"
+	}
+	out := make([]string, len(socks))
+	for i, s := range socks {
+		sn := snaps[i]
+		cs := h.connState(s, sn.closes > 0 || sn.tr > 0)
+		out[i] = fmt.Sprintf("%d:p%dt%dc%s", s.id, sn.closes, sn.tr, cs)
+		if sn.closes > 0 && sn.tr == 0 {
+			*orc = append(*orc, fmt.Sprintf("socket %d: packet conn closed but its quic.Transport was never closed", s.id))
+		}
+		if sn.tr > 0 && sn.closes == 0 {
+			*orc = append(*orc, fmt.Sprintf("socket %d: quic.Transport closed but its packet conn is still open", s.id))
+		}
+		if (sn.closes > 0 || sn.tr > 0) && cs == "0" {
+			*orc = append(*orc, fmt.Sprintf("socket %d: torn down without closing its QUIC connection (the server still sees it open)", s.id))
+		}
+		if !sn.client && (sn.closes != 1 || sn.tr != 1) {
+			*orc = append(*orc, fmt.Sprintf("socket %d of a failed connect: packet conn closed %d time(s), transport %d time(s); want exactly once each", s.id, sn.closes, sn.tr))
+		}
+	}
+	return strings.Join(out, ",")
+}
+
 // kill: the server closes the connection of every factory socket that is open and not yet
 // killed. With settle, waits until the client has noticed (connection context done, UDP
 // session manager cleaned up). Returns how many were killed.
@@ -510,18 +908,18 @@ func (h *rcHist) kill(settle bool) (int, string) {
 	killed := 0
 	problem := ""
 	for _, s := range victims {
-		h.env.mu.Lock()
-		qc := h.env.conns[s.port]
-		delete(h.env.conns, s.port)
-		h.env.mu.Unlock()
-		if qc == nil {
+		acc := h.env.acceptedFor(s.port, s.createdSeq)
+		if acc == nil {
 			continue // handshake still in progress: nothing to kill yet
 		}
+		h.env.mu.Lock()
+		acc.serverClosed = true
+		h.env.mu.Unlock()
 		h.mu.Lock()
 		s.dead = true
 		in := h.inner[s.id]
 		h.mu.Unlock()
-		_ = qc.CloseWithError(0x107, "verif kill")
+		_ = acc.conn.CloseWithError(0x107, "verif kill")
 		killed++
 		if settle && in != nil {
 			select {
@@ -614,6 +1012,9 @@ func (h *rcHist) call(kind byte, hold bool) string {
 	}()
 	select {
 	case r := <-ch:
+		if strings.HasPrefix(r.s, "panic") {
+			h.markBroken() // clientDo does not unlock on a panic
+		}
 		if r.c != nil {
 			if hold {
 				h.mu.Lock()
@@ -624,9 +1025,17 @@ func (h *rcHist) call(kind byte, hold bool) string {
 			}
 		}
 		return r.s
-	case <-time.After(60 * time.Second):
+	case <-h.brokenCh:
+		return "hang"
+	case <-time.After(20 * time.Second):
+		h.markBroken()
 		return "hang"
 	}
+}
+
+func (h *rcHist) markBroken() {
+	h.broken.Store(true)
+	h.brokenOne.Do(func() { close(h.brokenCh) })
 }
 
 func (h *rcHist) noteErr(err error) {
@@ -669,7 +1078,7 @@ func (h *rcHist) fill() string {
 
 // finish: Close (if not yet), then the Close-is-final clause, then release everything.
 func (h *rcHist) finish(orc *[]string) {
-	if h.rc != nil {
+	if h.rc != nil && !h.broken.Load() {
 		done := make(chan struct{})
 		go func() { _ = h.rc.Close(); close(done) }()
 		select {
@@ -732,7 +1141,7 @@ func (c *reconnectComp) newHist() *rcHist {
 		c.env = newRcEnv()
 	}
 	c.hist++
-	return &rcHist{env: c.env, id: c.hist, inner: map[int]client.Client{}}
+	return &rcHist{env: c.env, id: c.hist, inner: map[int]client.Client{}, brokenCh: make(chan struct{})}
 }
 
 func rcInts(xs []int) string {
@@ -746,7 +1155,7 @@ func rcInts(xs []int) string {
 	return strings.Join(ss, ",")
 }
 
-var rcAtts = map[string]bool{"ok": true, "cfg": true, "bad": true, "new": true, "auth": true, "tls": true, "down": true}
+var rcAtts = map[string]bool{"ok": true, "cfg": true, "bad": true, "new": true, "auth": true, "rt": true, "tls": true, "down": true}
 
 func (c *reconnectComp) Run(op string) vh.Result {
 	f := strings.Fields(op)
@@ -911,7 +1320,9 @@ func (c *reconnectComp) runSeq(ops []string) vh.Result {
 			go func() { _ = h.rc.Close(); close(done) }()
 			select {
 			case <-done:
+			case <-h.brokenCh:
 			case <-time.After(30 * time.Second):
+				h.markBroken()
 				orc = append(orc, "Close() did not return within 30s")
 			}
 			res = "close"
@@ -936,10 +1347,15 @@ func (c *reconnectComp) runSeq(ops []string) vh.Result {
 		if len(open) > 1 {
 			orc = append(orc, fmt.Sprintf("after %s: %d factory sockets open at a quiescent point: %v", tok, len(open), open))
 		}
-		out = append(out, fmt.Sprintf("%s/%d/%s/%s/%d", res, cfg, rcInts(conn), rcInts(open), alloc))
+		out = append(out, fmt.Sprintf("%s/%d/%s/%s/%d/%s", res, cfg, rcInts(conn), rcInts(open), alloc, h.resources(&orc)))
+		if h.broken.Load() {
+			out = append(out, "aborted")
+			break
+		}
 	}
 	h.commonOracle(&orc)
 	h.finish(&orc)
+	_ = h.resources(&orc) // after Close: every socket torn down completely
 	return vh.Result{Out: strings.Join(out, " "), NonTrivial: connected, Oracle: dedup(orc)}
 }
 
@@ -973,7 +1389,7 @@ func (c *reconnectComp) runConc(kv []string) vh.Result {
 	h := c.newHist()
 	h.fastOpen = p["fo"] == 1
 	script := make([]string, 256)
-	fails := []string{"cfg", "new", "auth", "bad", "tls"}
+	fails := []string{"cfg", "new", "auth", "bad", "tls", "rt"}
 	for i := range script {
 		script[i] = "ok"
 		if r.Intn(100) < p["fail"] {
@@ -1029,6 +1445,9 @@ func (c *reconnectComp) runConc(kv []string) vh.Result {
 		go func(plan []step) {
 			defer wg.Done()
 			for _, s := range plan {
+				if h.broken.Load() {
+					return
+				}
 				time.Sleep(s.pause)
 				after := closeReturned.Load()
 				res := h.call(s.kind, s.hold)
@@ -1056,7 +1475,13 @@ func (c *reconnectComp) runConc(kv []string) vh.Result {
 		go func() {
 			defer wg.Done()
 			time.Sleep(closePause)
-			_ = rc.Close()
+			cd := make(chan struct{})
+			go func() { _ = rc.Close(); close(cd) }()
+			select {
+			case <-cd:
+			case <-h.brokenCh: // rc.m is held for ever by a call that panicked
+				return
+			}
 			h.mu.Lock()
 			cfgAtClose.Store(int64(h.cfgCalls))
 			h.mu.Unlock()
@@ -1092,6 +1517,7 @@ func (c *reconnectComp) runConc(kv []string) vh.Result {
 	}
 	h.commonOracle(&orc)
 	h.finish(&orc)
+	_ = h.resources(&orc) // after Close: every socket torn down completely
 	sort.Strings(orc)
 	return vh.Result{Out: "conc checked", NonTrivial: len(conn) > 0, Oracle: dedup(orc)}
 }
@@ -1109,8 +1535,10 @@ func (c *reconnectComp) Gen(r *vh.RNG, n int, emit func(op string, tags ...strin
 			return "cfg"
 		case x < 84:
 			return "new"
-		case x < 92:
+		case x < 89:
 			return "auth"
+		case x < 93:
+			return "rt"
 		case x < 95:
 			return "bad"
 		case x < 96 || !allowDown:
@@ -1123,7 +1551,8 @@ func (c *reconnectComp) Gen(r *vh.RNG, n int, emit func(op string, tags ...strin
 		"seq L T:ok K T:ok T:ok",
 		"seq E:ok K U:ok U:ok C T:ok",
 		"seq L F:ok T:ok U:ok R:ok K T:ok T:ok",
-		"seq E:auth L T:cfg T:new T:auth T:bad T:tls T:ok C",
+		"seq E:auth L T:cfg T:new T:auth T:bad T:tls T:rt T:ok C C",
+		"seq E:rt E:tls E:new E:ok K T:rt U:auth T:ok",
 		"seq L C T:ok U:ok",
 		"seq L T:ok R:ok K K U:cfg U:ok K C C T:ok",
 	}
